@@ -448,6 +448,13 @@ def subst(v, env):
                 cur['ty'] = v['ty']
             return cur
         for f in path:
+            # a field of a struct literal passed by the caller (parameter objects, `&Args { a, b }`) is that field's value
+            lit = vt.strip(cur)
+            while isinstance(lit, dict) and lit.get('k') in ('ref', 'deref', 'paren'):
+                lit = vt.strip(lit.get('v'))
+            if isinstance(lit, dict) and lit.get('k') == 'struct' and isinstance(lit.get('fields'), dict) and f in lit['fields']:
+                cur = lit['fields'][f]
+                continue
             cur = {'k': 'field', 'base': cur, 'name': f}
         if isinstance(cur, dict) and v.get('ty') and 'ty' not in cur:
             cur = dict(cur)
